@@ -291,6 +291,16 @@ pub fn compare_free(case: &ContCase, loose: bool, views: &[(PathBuf, FileView)])
             }
         }
     }
+    // "the checkInfo tail of each pack must be copied in the manifest pack": the copy equals the pack's own check block
+    for i in &infos {
+        for (_, v) in views {
+            for pack in v.packs.iter().filter(|pk| pk.hdr.uuid == i.uuid) {
+                if !pack.check_block.is_empty() && pack.check_block != i.check_copy {
+                    diffs.push(format!("manifest: the check info recorded for pack {} ({}) is not the pack's own check block ({})", i.id, util::brief(&i.check_copy), util::brief(&pack.check_block)));
+                }
+            }
+        }
+    }
     for i in &infos {
         let expected = if loose { packinfo_free(seed, i.id) } else { vec![] };
         match &i.free {
